@@ -3,7 +3,7 @@
    input (lists of notes of any length, arbitrary maps, any divisions); none is a finite sample.
    The model (Model/C05.v) is tied to partitura's code by the correspondence run of
    harness/props/c05.py on every check. *)
-From PV Require Import Lib.Base Lib.Round Model.C05 Model.C05_Spec Model.C05_Ext Model.C05_Inv Model.C05_Disp Model.C05_Voice Model.C05_Hist Proofs.C05_lib Proofs.C05_ties Proofs.C05 Proofs.C05_ext Proofs.C05_inv Proofs.C05_disp Proofs.C05_voice Proofs.C05_hist.
+From PV Require Import Lib.Base Lib.Round Model.C05 Model.C05_Spec Model.C05_Ext Model.C05_Inv Model.C05_Disp Model.C05_Voice Model.C05_Hist Model.C05_Sel Model.C05_Shift Proofs.C05_lib Proofs.C05_ties Proofs.C05 Proofs.C05_ext Proofs.C05_inv Proofs.C05_disp Proofs.C05_voice Proofs.C05_hist Proofs.C05_sel Proofs.C05_shift.
 From Coq Require Import QArith Sorting.Sorted Permutation.
 #[local] Open Scope Z_scope.
 
@@ -472,3 +472,124 @@ Theorem history_example :
   map rleaves (s_struct (run h0 ops)) = [[0]; [1]].
 Proof. exact history_example_values. Qed.
 Print Assumptions history_example.
+
+(* ---------------------------------------------------------------- selection of the maps for the optional columns (round j)
+   Model/C05_Sel.v: note_array_from_part / rest_array_from_part hand a map of the part (or the divisions) to the row
+   construction exactly when the include_* option asks for it, else None; note_array_from_note_list puts every tuple
+   together group by group ("if key_signature_map is not None"), sanitises the voices and sorts the table THAT WAS BUILT. *)
+
+(* for EVERY part and EVERY one of the 2^7 option sets the table Part.note_array returns is the full table of the part
+   (all maps, the part's divisions: the [note_array] the theorems above speak about) seen through the options: a column
+   group is there exactly when it was asked for and says what the full row says; row order and voice replacement do not
+   depend on which columns were built; the divisions column is only ever built for a part with ONE entry of divisions *)
+Theorem entry_is_view : forall o p t, note_array_from_part_m o p = Table t ->
+  exists rows, note_array (p_notes p) (p_maps p) (first_divs p) = Some rows /\ t = map (view o) rows /\
+               (o_divs o = true -> exists t0, p_qd p = [(t0, first_divs p)]).
+Proof. exact entry_is_view_lemma. Qed.
+Print Assumptions entry_is_view.
+
+(* O6: the same for Part.rest_array (no divisions column; it never refuses) *)
+Theorem rest_entry_is_view : forall o p,
+  match rest_array_from_part_m o p with
+  | Table t => exists rows, rest_array (p_notes p) (p_maps p) (first_divs p) = Some rows /\
+                            t = map (view (rest_opts o)) rows
+  | Broken => rest_array (p_notes p) (p_maps p) (first_divs p) = None
+  | Refused => False
+  end.
+Proof. exact rest_entry_is_view_lemma. Qed.
+Print Assumptions rest_entry_is_view.
+
+(* the error branch: the declared exception is raised exactly when include_divs_per_quarter is set AND the part does not
+   have exactly one entry of divisions; with well-formed tie links every other call returns a table *)
+Theorem entry_refuses_exactly : forall o p,
+  (note_array_from_part_m o p = Refused <-> o_divs o = true /\ List.length (p_qd p) <> 1%nat) /\
+  (wf_ties (p_notes p) -> note_array_from_part_m o p <> Broken).
+Proof. exact entry_refuses_exactly_lemma. Qed.
+Print Assumptions entry_refuses_exactly.
+
+(* O2, O3 at the entry point: every row of the returned table is the view of a row that says, in every column, what the
+   score / the part's maps state at the onset of the chain head it stands for *)
+Theorem entry_columns_spec : forall o p t, note_array_from_part_m o p = Table t ->
+  forall x, In x t ->
+  exists h d r, In h (notes_tied (sounding (p_notes p))) /\
+                duration_tied (p_notes p) (List.length (p_notes p)) h = Some d /\
+                row_matches (p_maps p) (first_divs p) h d r /\
+                voice_ok (notes_tied (sounding (p_notes p))) h r /\ x = view o r.
+Proof. exact entry_columns_lemma. Qed.
+Print Assumptions entry_columns_spec.
+
+(* "all combinations of the include_* options": the options are independent -- what two option sets have in common is the
+   same in both tables, row by row in the same order; in particular onset, duration, pitch, voice and id never depend on
+   an option *)
+Theorem options_independent : forall o1 o2 p t1 t2,
+  note_array_from_part_m o1 p = Table t1 -> note_array_from_part_m o2 p = Table t2 ->
+  map (restrict o2) t1 = map (restrict o1) t2.
+Proof. exact options_independent_lemma. Qed.
+Print Assumptions options_independent.
+
+(* not vacuous: a part with a key change read without options, with the key signature alone, with every option; the same
+   notes with two entries of divisions are refused with every option and read with the key signature alone *)
+Theorem selection_example :
+  wf_ties (p_notes ex_sel_part) /\
+  note_array_from_part_m opts_none ex_sel_part
+    = Table [ (0, 4, 60, 1, "a", None, None, None, None, None, None, None);
+              (4, 4, 64, 2, "b", None, None, None, None, None, None, None) ]%string /\
+  note_array_from_part_m opts_ks ex_sel_part
+    = Table [ (0, 4, 60, 1, "a", None, None, Some (2, 1), None, None, None, None);
+              (4, 4, 64, 2, "b", None, None, Some (-3, 0), None, None, None, None) ]%string /\
+  note_array_from_part_m opts_all ex_sel_part
+    = Table [ (0, 4, 60, 1, "a", Some ("C", 0, 4), Some (false, ""), Some (2, 1), Some (3, 4, 3), Some (1, 0, 12), Some 1, Some 4);
+              (4, 4, 64, 2, "b", Some ("E", 0, 4), Some (false, ""), Some (-3, 0), Some (3, 4, 3), Some (0, 4, 12), Some 1, Some 4) ]%string /\
+  note_array_from_part_m opts_all ex_sel_part2 = Refused /\
+  (exists t, note_array_from_part_m opts_ks ex_sel_part2 = Table t).
+Proof. exact ex_sel_values. Qed.
+Print Assumptions selection_example.
+
+(* the statements discriminate: with the condition of one "if include_...:" block copied to the next one (the key
+   signature map handed over when the TIME signature is asked for) entry_is_view fails ... *)
+Theorem copied_condition_refuted :
+  ~ (forall o p t, entry_with select_part_copied o p = Table t ->
+       exists rows, note_array (p_notes p) (p_maps p) (first_divs p) = Some rows /\ t = map (view o) rows).
+Proof. exact copied_condition_refuted_lemma. Qed.
+Print Assumptions copied_condition_refuted.
+
+(* ... and with the divisions read from the first entry without looking at the others entry_refuses_exactly fails *)
+Theorem first_entry_refuted :
+  ~ (forall o p, entry_with select_part_first o p = Refused <-> o_divs o = true /\ List.length (p_qd p) <> 1%nat).
+Proof. exact first_entry_refuted_lemma. Qed.
+Print Assumptions first_entry_refuted.
+
+(* ---------------------------------------------------------------- the onset column of create_divs_from_beats (round j)
+   O7 for arrays with beat columns only: for ANY admissible number of divisions (the lcm of all denominators or a multiple)
+   the WHOLE onset column -- after the shift the code applies when the smallest onset is negative -- converts back to the
+   input onsets up to ONE constant k; k is zero unless an onset is negative (an excerpt that begins at beat 5 stays at
+   beat 5); no entry is negative; a shifted column begins at 0 *)
+Theorem onset_column_roundtrip : forall onsets durs d,
+  0 < d -> (divs_from_beats onsets durs | d) ->
+  onset_column_ok d onsets (fst (divs_columns_at d onsets durs)).
+Proof. exact onset_column_lemma. Qed.
+Print Assumptions onset_column_roundtrip.
+
+(* the shift itself: by one constant c <= 0 that is 0 when no entry is negative *)
+Theorem shift_nonneg_is_conditional : forall l, exists c,
+  shift_nonneg l = map (fun v => v - c) l /\ c <= 0 /\
+  (Forall (fun v => 0 <= v) l -> c = 0) /\
+  Forall (fun v => 0 <= v) (shift_nonneg l) /\
+  (c = 0 \/ In 0 (shift_nonneg l)).
+Proof. exact shift_nonneg_spec. Qed.
+Print Assumptions shift_nonneg_is_conditional.
+
+(* not vacuous: onsets 5, 6.5, 8 at 2 divisions stay 10, 13, 16; the pickup -0.5, 0, 1.5 becomes 0, 1, 4 *)
+Theorem onset_column_example :
+  divs_from_beats ex_shift_late [1 # 2]%Q = 2 /\ onset_column 2 ex_shift_late = [10; 13; 16] /\
+  onset_column 2 ex_shift_pickup = [0; 1; 4].
+Proof. exact ex_shift_values. Qed.
+Print Assumptions onset_column_example.
+
+(* the statement discriminates: a column shifted whatever the sign of its minimum ("the timeline starts with the first
+   onset": seed h) does not satisfy it *)
+Theorem shift_always_refuted :
+  ~ (forall onsets durs d, 0 < d -> (divs_from_beats onsets durs | d) ->
+       onset_column_ok d onsets (shift_always (map (to_div d) onsets))).
+Proof. exact shift_always_refuted_lemma. Qed.
+Print Assumptions shift_always_refuted.
